@@ -345,7 +345,7 @@ func c08Edges(r *Run) {
 		{"trillian/ctfe.getSTHConsistency", "tree-too-small", ordAtomR("ROOT.TreeSize", "trillian/ctfe.parseGetSTHConsistencyRange(p3)#1"), "<", "400"},
 		{"trillian/ctfe.getSTHConsistency", "proof-hash-size", boolAtom("trillian/ctfe.checkAuditPath(*)"), "F", "500"},
 		// get-proof-by-hash
-		{"trillian/ctfe.getProofByHash", "hash-missing", ordAtomR("len((*http.Request).FormValue(*))", "0"), "=", "400"},
+		{"trillian/ctfe.getProofByHash", "hash-missing", ordAtomR("(*http.Request).FormValue(*)", `""`), "=", "400"},
 		{"trillian/ctfe.getProofByHash", "hash-not-base64", nilAtom("(*base64.Encoding).DecodeString(*)#1"), "non", "400"},
 		{"trillian/ctfe.getProofByHash", "tree-size-unparsable", nilAtom("strconv.ParseInt(*)#1"), "non", "400"},
 		{"trillian/ctfe.getProofByHash", "tree-size-below-1", ordAtomR("strconv.ParseInt(*)#0", "1"), "<", "400"},
